@@ -230,6 +230,45 @@ pub fn op_fragenc(args: &[&str]) -> String {
 use bao_tree::io::mixed;
 use std::io::ErrorKind;
 
+
+/// like `with_sync_store!`, but the backing of io kinds is a counted / failing `FBack` (ctl `$cio`)
+macro_rules! with_sync_store_f {
+    ($kind:expr, $root:expr, $tree:expr, $data:expr, $cio:expr, |$ob:ident| $body:expr) => {{
+        let (root, tree, data): (blake3::Hash, BaoTree, Vec<u8>) = ($root, $tree, $data);
+        match $kind {
+            "preIo" => {
+                let mut $ob = PreOrderOutboard { root, tree, data: FBack(data, $cio.clone()) };
+                let r = $body;
+                (r, $ob.data.0)
+            }
+            "postIo" => {
+                let mut $ob = PostOrderOutboard { root, tree, data: FBack(data, $cio.clone()) };
+                let r = $body;
+                (r, $ob.data.0)
+            }
+            k => with_sync_store!(k, root, tree, data, |$ob| $body),
+        }
+    }};
+}
+macro_rules! with_fsm_store_f {
+    ($kind:expr, $root:expr, $tree:expr, $data:expr, $cio:expr, |$ob:ident| $body:expr) => {{
+        let (root, tree, data): (blake3::Hash, BaoTree, Vec<u8>) = ($root, $tree, $data);
+        match $kind {
+            "preIo" => {
+                let mut $ob = PreOrderOutboard { root, tree, data: FBack(BytesMut::from(&data[..]), $cio.clone()) };
+                let r = $body;
+                (r, $ob.data.0.to_vec())
+            }
+            "postIo" => {
+                let mut $ob = PostOrderOutboard { root, tree, data: FBack(BytesMut::from(&data[..]), $cio.clone()) };
+                let r = $body;
+                (r, $ob.data.0.to_vec())
+            }
+            k => with_fsm_store!(k, root, tree, data, |$ob| $body),
+        }
+    }};
+}
+
 pub struct RunOut {
     pub res: String,
     pub out: Vec<u8>,
@@ -287,29 +326,23 @@ pub fn run_faulty(spec: &str, fault: Option<(String, usize, ErrorKind)>) -> RunO
         "encv-sync" | "encp-sync" => {
             let (cd, co, cw, cio) = (c("data"), c("ob"), c("w"), c("obio"));
             let mut out = Vec::new();
-            fn go<O: sync::Outboard>(validated: bool, d: FReadAt<&[u8]>, o: O, ranges: &bao_tree::ChunkRangesRef, w: FWrite<&mut Vec<u8>>) -> Result<(), bao_tree::io::EncodeError> {
-                if validated {
-                    sync::encode_ranges_validated(d, o, ranges, w)
+            let (r, _) = with_sync_store_f!(kind, root, tree, ob, cio.1, |o| {
+                let d = FReadAt(&data[..], cd.1.clone());
+                let fo = FOb(&o, co.1.clone());
+                let w = FWrite(&mut out, cw.1.clone());
+                if name == "encv-sync" {
+                    sync::encode_ranges_validated(d, fo, &ranges, w)
                 } else {
-                    sync::encode_ranges(d, o, ranges, w)
+                    sync::encode_ranges(d, fo, &ranges, w)
                 }
-            }
-            let val = name == "encv-sync";
-            let d = FReadAt(&data[..], cd.1.clone());
-            let w = FWrite(&mut out, cw.1.clone());
-            // io backed stores: the backing reader is an io object of its own ("obio")
-            let r = match kind {
-                "preIo" => go(val, d, FOb(PreOrderOutboard { root, tree, data: FReadAt(ob, cio.1.clone()) }, co.1.clone()), &ranges, w),
-                "postIo" => go(val, d, FOb(PostOrderOutboard { root, tree, data: FReadAt(ob, cio.1.clone()) }, co.1.clone()), &ranges, w),
-                _ => with_sync_store!(kind, root, tree, ob, |o| go(val, d, FOb(&o, co.1.clone()), &ranges, w)).0,
-            };
+            });
             RunOut { res: r.map(|_| "Ok".into()).unwrap_or_else(|e| enc_err(&e)), out, ctls: vec![cd, co, cw, cio] }
         }
         "encv-fsm" | "encp-fsm" => {
-            let (cd, co, cw) = (c("data"), c("ob"), c("w"));
+            let (cd, co, cw, cio) = (c("data"), c("ob"), c("w"), c("obio"));
             let mut out = Vec::new();
             let d = Bytes::from(data.clone());
-            let (r, _) = with_fsm_store!(kind, root, tree, ob, |o| {
+            let (r, _) = with_fsm_store_f!(kind, root, tree, ob, cio.1, |o| {
                 let d = FSliceReader(d.clone(), cd.1.clone());
                 let fo = FOb(&mut o, co.1.clone());
                 let w = FStreamWriter(&mut out, cw.1.clone());
@@ -319,7 +352,7 @@ pub fn run_faulty(spec: &str, fault: Option<(String, usize, ErrorKind)>) -> RunO
                     block_on(fsm::encode_ranges(d, fo, &ranges, w))
                 }
             });
-            RunOut { res: r.map(|_| "Ok".into()).unwrap_or_else(|e| enc_err(&e)), out, ctls: vec![cd, co, cw] }
+            RunOut { res: r.map(|_| "Ok".into()).unwrap_or_else(|e| enc_err(&e)), out, ctls: vec![cd, co, cw, cio] }
         }
         "mixed" => {
             let (cd, co, cs) = (c("data"), c("ob"), c("s"));
@@ -356,7 +389,7 @@ pub fn run_faulty(spec: &str, fault: Option<(String, usize, ErrorKind)>) -> RunO
             RunOut { res, out, ctls: vec![cd, co, cs] }
         }
         "decr-sync" | "decr-fsm" => {
-            let (cr, ct, co) = (c("r"), c("t"), c("ob"));
+            let (cr, ct, co, cio) = (c("r"), c("t"), c("ob"), c("obio"));
             let mut enc = Vec::new();
             {
                 let pre = PreOrderMemOutboard::create(&data, bs);
@@ -365,7 +398,7 @@ pub fn run_faulty(spec: &str, fault: Option<(String, usize, ErrorKind)>) -> RunO
             let ob0 = vec![0u8; tree.outboard_size() as usize];
             let mut target = vec![0u8; data.len()];
             let (r, ob_out) = if name == "decr-sync" {
-                with_sync_store!(kind, root, tree, ob0, |o| sync::decode_ranges(
+                with_sync_store_f!(kind, root, tree, ob0, cio.1, |o| sync::decode_ranges(
                     FRead(&enc[..], cr.1.clone()),
                     &ranges,
                     FWriteAt(&mut target, ct.1.clone()),
@@ -373,7 +406,7 @@ pub fn run_faulty(spec: &str, fault: Option<(String, usize, ErrorKind)>) -> RunO
                 ))
             } else {
                 let mut t = BytesMut::from(&target[..]);
-                let res = with_fsm_store!(kind, root, tree, ob0, |o| block_on(fsm::decode_ranges(
+                let res = with_fsm_store_f!(kind, root, tree, ob0, cio.1, |o| block_on(fsm::decode_ranges(
                     FStreamReader(&enc[..], cr.1.clone()),
                     ranges.clone(),
                     FSliceWriter(&mut t, ct.1.clone()),
@@ -384,21 +417,21 @@ pub fn run_faulty(spec: &str, fault: Option<(String, usize, ErrorKind)>) -> RunO
             };
             let mut out = target;
             out.extend_from_slice(&ob_out);
-            RunOut { res: r.map(|_| "Ok".into()).unwrap_or_else(|e| dec_err(&e)), out: vec![], ctls: vec![cr, ct, co] }.with_out(out)
+            RunOut { res: r.map(|_| "Ok".into()).unwrap_or_else(|e| dec_err(&e)), out: vec![], ctls: vec![cr, ct, co, cio] }.with_out(out)
         }
         "ob-sync" | "ob-fsm" => {
-            let (cd, co) = (c("data"), c("ob"));
+            let (cd, co, cio) = (c("data"), c("ob"), c("obio"));
             let ob0 = vec![0u8; tree.outboard_size() as usize];
             let (r, ob_out) = if name == "ob-sync" {
-                with_sync_store!(kind, zero, tree, ob0, |o| sync::outboard(FRead(&data[..], cd.1.clone()), tree, FOb(&mut o, co.1.clone())))
+                with_sync_store_f!(kind, zero, tree, ob0, cio.1, |o| sync::outboard(FRead(&data[..], cd.1.clone()), tree, FOb(&mut o, co.1.clone())))
             } else {
-                with_fsm_store!(kind, zero, tree, ob0, |o| block_on(fsm::outboard(
+                with_fsm_store_f!(kind, zero, tree, ob0, cio.1, |o| block_on(fsm::outboard(
                     FStreamReader(Bytes::from(data.clone()), cd.1.clone()),
                     tree,
                     FOb(&mut o, co.1.clone())
                 )))
             };
-            RunOut { res: r.map(|_| "Ok".into()).unwrap_or_else(|e| io_err(&e)), out: vec![], ctls: vec![cd, co] }.with_out(ob_out)
+            RunOut { res: r.map(|_| "Ok".into()).unwrap_or_else(|e| io_err(&e)), out: vec![], ctls: vec![cd, co, cio] }.with_out(ob_out)
         }
         "obpo-sync" | "obpo-fsm" => {
             let (cd, cw) = (c("data"), c("w"));
